@@ -25,7 +25,7 @@ func init() {
 		RequiredCounters: []string{"single_maps_checked", "batch_positions_checked", "rerepresentations_checked"},
 		Assumptions:      []string{"shadows are re-synchronised from the library's raw coordinates when an operation deviates from the reference (C08's subject)"},
 		Plan: func(tier string) []Child {
-			out := shards(pick(tier, 10, 14), Child{Flavour: "plain", NCPU: 1})
+			out := shardsVar(pick(tier, 10, 14), Child{Flavour: "plain", NCPU: 1})
 			// large batches on several CPUs: a batch helper that parallelises internally must still agree with the single variant
 			out = append(out, Child{Flavour: "plain", NCPU: 4, Params: map[string]string{"part": "bigbatch"}})
 			out = append(out, Child{Flavour: "plain", NCPU: 8, GOMAXPROCS: 16, Params: map[string]string{"part": "bigbatch"}})
